@@ -9,6 +9,8 @@ The verdict for all test files is NOT decided. Decided structural clauses:
   4 EXIT      Err(FAILURE) is returned iff failed > 0 or xpassed > 0
   5 FILTER    the -k / --slow predicate is exactly `(k is None or name contains k) and (slow allowed or not slow)`
   6 STATUS    run_single_test reports Passed only on the `status.success()` edge of the cargo invocation
+              (+ HARNESSFRESH: the harness files are rewritten from the current source before every cargo run)
+  7 STOP      -x stops on the reported result (after the xfail inversion), not on the raw outcome
 """
 from engines import (arm_regions, blocks_dominated_by_edge, callee_generic, callee_name, derived_locals,
                      discr_switches, iter_read_places, op_place, place_fields, region_outputs)
